@@ -180,3 +180,27 @@ Theorem C17_K_sound_mutate :
     st' = st /\ rep' = rep /\ cfg_equiv cur (shown st).
 Proof. exact kstep_mutate_sound. Qed.
 Print Assumptions C17_K_sound_mutate.
+
+(** monotonic: a load never lowers the revision of the current configuration
+    and never returns it to nil; an applied load on an existing configuration
+    strictly raises the revision *)
+Theorem C17_load_monotonic :
+  forall (R O X : Type) (R_eqb : R -> R -> bool) (O_eqb : O -> O -> bool) (R_empty : R) (O_empty : O)
+         (p : bool) (s : state R O X) (arg : option (config R O X)),
+    let s' := load_state R_eqb O_eqb R_empty O_empty p s arg in
+    rev_le (rev_of s) (rev_of s')
+    /\ (load_err R_eqb O_eqb R_empty O_empty p s arg = None ->
+        forall cur, s = Some cur ->
+        exists cf, arg = Some cf /\ s' = Some (store_gen R_empty O_empty p cf)
+                   /\ c_revision cur < c_revision cf).
+Proof. exact @load_monotonic. Qed.
+Print Assumptions C17_load_monotonic.
+
+(** ... hence along every history of loads *)
+Theorem C17_history_monotonic :
+  forall (R O X : Type) (R_eqb : R -> R -> bool) (O_eqb : O -> O -> bool) (R_empty : R) (O_empty : O)
+         (p : bool) (hs : list (hop R O X)) (s : state R O X),
+    forallb is_load hs = true ->
+    rev_le (rev_of s) (rev_of (fst (run_gen R_eqb O_eqb R_empty O_empty p s hs))).
+Proof. exact @history_monotonic. Qed.
+Print Assumptions C17_history_monotonic.
